@@ -51,7 +51,7 @@ func checkC01(c *Ctx) {
 	r.Rule("C01.R6-empty-message", "an empty input produces no segment and ends in a clean Close", 2)
 	r.Rule("C01.R2-tables", "id/name tables agree with each other and with the README; JSON goes through them; getCipher covers the accepted ciphers with the AEAD the spec names", 27)
 	r.Rule("C01.R3-spec-constants", "constants, nonce layout, HKDF/HMAC/base64 parameters equal the README's", 18)
-	r.Rule("C01.R4-siblings", "encrypt/decrypt siblings agree (nonce function and arguments, nil AAD, segment sizes, MACed message)", 14)
+	r.Rule("C01.R4-siblings", "encrypt/decrypt siblings agree (nonce function and arguments, nil AAD, segment sizes, MACed message, header size limit writer<=reader)", 15)
 	r.Rule("C01.R7-header-pushback", "bytes read beyond the third header line are re-prepended to the stream Decrypt continues with", 2)
 	r.Rule("C01.R8-manifest-wiring", "manifest fields and the keys/cipher/nonce prefix used for the payload are the same values on both sides; key-name precedence", 12)
 
